@@ -20,7 +20,9 @@ struct Op {
     ranged: bool,
 }
 
-const OPS: [Op; 6] = [
+const OPS: [Op; 8] = [
+    Op { cb: "simplestats", ranged: false },
+    Op { cb: "opreturn", ranged: false },
     Op { cb: "csvdump", ranged: false },
     Op { cb: "unspentcsvdump", ranged: false },
     Op { cb: "balances", ranged: false },
@@ -42,7 +44,8 @@ fn tmp_names(cb: &str) -> Vec<&'static str> {
     match cb {
         "csvdump" => vec!["blocks.csv.tmp", "transactions.csv.tmp", "tx_in.csv.tmp", "tx_out.csv.tmp"],
         "unspentcsvdump" => vec!["unspent.csv.tmp"],
-        _ => vec!["balances.csv.tmp"],
+        "balances" => vec!["balances.csv.tmp"],
+        _ => vec![],
     }
 }
 
@@ -63,6 +66,11 @@ fn data_fingerprint(dir: &std::path::Path) -> BTreeMap<String, (String, i64, i64
     let mut m = BTreeMap::new();
     for e in std::fs::read_dir(dir).unwrap().flatten() {
         let name = e.file_name().to_string_lossy().into_owned();
+        if !(e.path().is_file() && (name.starts_with("blk") || name == "xor.dat")) {
+            // every other entry of the data directory must keep existing and nothing new may appear (content of index/ is
+            // compared through its key/value dump)
+            m.insert(format!("entry:{}", name), (String::new(), 0, 0));
+        }
         if e.path().is_file() && (name.starts_with("blk") || name == "xor.dat") {
             let md = e.metadata().unwrap();
             m.insert(name, (hex(&sha256(&std::fs::read(e.path()).unwrap())), md.mtime(), md.mtime_nsec()));
@@ -97,16 +105,19 @@ pub fn run() -> Report {
     for s in &seqs {
         for init in 0..3u8 {
             for threads in [1u32, 16] {
+                if s.len() == 3 && threads == 16 && !thorough {
+                    continue;
+                }
                 cases.push((s.clone(), init, threads));
             }
         }
     }
-    rep.rule = "ALL sequences of 1..3 runs drawn from {csvdump, unspentcsvdump, balances} x {whole chain, -s 1 -e 2} sharing one dump folder and one (XOR-obfuscated) data directory, from 3 initial folder states {empty, stale *.csv.tmp files longer than any output, earlier final-named files with other content}, RAYON_NUM_THREADS in {1,16}: after every run its final-named files equal those of the same run on a fresh folder, no tmp file of it remains, results of earlier runs are untouched, blk*.dat / xor.dat content and mtimes are unchanged and the key/value content of the block index (dumped from a copy) is unchanged; non-trivial = distinct (sequence, initial state, threads) of length >= 2".into();
-    rep.bound = json!({"ops": 6, "depth": 3, "sequences": seqs.len(), "cases": cases.len(), "restriction": "none"});
-    let _ = thorough;
+    rep.rule = "ALL sequences of 1..3 runs drawn from {csvdump, unspentcsvdump, balances} x {whole chain, -s 1 -e 2} and {simplestats, opreturn} sharing one dump folder and one (XOR-obfuscated) data directory, from 3 initial folder states {empty, stale *.csv.tmp files longer than any output, earlier final-named files with other content}, RAYON_NUM_THREADS in {1,16}: after every run its final-named files equal those of the same run on a fresh folder, no tmp file of it remains, results of earlier runs are untouched, blk*.dat / xor.dat content and mtimes are unchanged and the key/value content of the block index (dumped from a copy) is unchanged; non-trivial = distinct (sequence, initial state, threads) of length >= 2".into();
+    rep.bound = json!({"ops": 8, "depth": 3, "sequences": seqs.len(), "cases": cases.len(), "restriction": "none"});
     let root = refmodel::world::scratch_root();
     // reference outputs per op from a fresh folder
     let mut reference: BTreeMap<Op, BTreeMap<String, Vec<u8>>> = BTreeMap::new();
+    let mut stdout_ref: BTreeMap<Op, serde_json::Value> = BTreeMap::new();
     {
         let wk = Worker::new(&root, 900);
         for op in OPS {
@@ -121,8 +132,11 @@ pub fn run() -> Report {
             let bad = match op.cb {
                 "csvdump" => check_csvdump(&r, btc, &range, s, e),
                 "unspentcsvdump" => check_unspent(&r, btc, &range, s, e),
-                _ => check_balances(&r, btc, &range, s, e),
+                "balances" => check_balances(&r, btc, &range, s, e),
+                "simplestats" => check_stats(&r, btc, &range),
+                _ => check_opreturn(&r, btc, &range),
             };
+            stdout_ref.insert(op, crate::hx::observe(&r, &wk.dir)["stdout"].clone());
             if let Some((sig, _d)) = bad.into_iter().next() {
                 rep.count(&format!("note:fresh-run-differs-from-model:{}", sig), 1); // not C13's business
             }
@@ -176,6 +190,10 @@ pub fn run() -> Report {
                 let rc = json!({"kind": "run-history", "sequence": format!("{:?}", seq), "initial_folder_state": init, "threads": threads, "step": k});
                 if !r.ok() {
                     acc.disagree("run-in-used-folder-fails", format!("{}: exit {:?} {}", here, r.code, r.stderr.lines().next().unwrap_or("")), rc);
+                    return;
+                }
+                if matches!(op.cb, "simplestats" | "opreturn") && crate::hx::observe(&r, &wk.dir)["stdout"] != stdout_ref[op] {
+                    acc.disagree("report-depends-on-earlier-runs", format!("{}: stdout of {} differs from the same run on a fresh folder / fresh data directory", here, op.cb), rc.clone());
                     return;
                 }
                 let want = &reference[op];
